@@ -34,6 +34,7 @@
 import Sipsp.Proofs.Shift
 import Sipsp.Proofs.ShiftFLine
 import Sipsp.Proofs.ShiftNA
+import Sipsp.Proofs.ShiftLists
 
 namespace Sipsp.C11
 open Sipsp
@@ -154,5 +155,43 @@ theorem shift_nameaddr_resume : type_of% @parseNameAddrPVal_shift_resume := @par
 example : parseCSeqVal ("xyz".toUTF8.data ++ "12 INVITE\r\nX".toUTF8.data) 3 {} =
     shRes 3 (shCs 3) (parseCSeqVal "12 INVITE\r\nX".toUTF8.data 0 {}) := by decide +kernel
 example : (parseCSeqVal "12 INVITE\r\nX".toUTF8.data 0 {}).2.1 = Err.ok := by decide +kernel
+
+/-! ### Contact / P-Asserted-Identity value lists (Proofs/ShiftLists.lean) -/
+
+/-- **ParseAllContactValues is position independent**: the same Contact header bytes behind any prefix `pre`, parsed with the translated object, give the translated result (offset, verdict, every stored contact, counters, expires range); stated for every legitimate resumption state `CtShift` (proved in Proofs/ShiftLists.lean) -/
+theorem shift_contacts : type_of% @parseAllContactValues_shift := @parseAllContactValues_shift
+
+/-- … as a plain equation after OK / MoreBytes -/
+theorem shift_contacts_exact : type_of% @parseAllContactValues_shift_exact := @parseAllContactValues_shift_exact
+
+/-- … from a new object of any capacity, at any start offset -/
+theorem shift_contacts_new : type_of% @parseAllContactValues_shift_new := @parseAllContactValues_shift_new
+
+/-- … and for a call resumed after MoreBytes on a grown buffer -/
+theorem shift_contacts_resume : type_of% @parseAllContactValues_shift_resume := @parseAllContactValues_shift_resume
+
+/-- after MoreBytes the returned object is a legitimate resumption state again -/
+theorem shift_contacts_entry : type_of% @parseAllContactValues_shiftEntry := @parseAllContactValues_shiftEntry
+
+/-- what a caller reads from the moved list: counts, capacities and numbers are identical -/
+theorem shift_contacts_scalars : type_of% @shCt_scalars := @shCt_scalars
+
+/-- `GetContact(j)` of the moved list is the moved `GetContact(j)` -/
+theorem shift_contacts_get : type_of% @shCt_getContact := @shCt_getContact
+
+/-- **ParseAllPAIValues is position independent** -/
+theorem shift_pais : type_of% @parseAllPAIValues_shift := @parseAllPAIValues_shift
+
+/-- … as a plain equation after OK / MoreBytes -/
+theorem shift_pais_exact : type_of% @parseAllPAIValues_shift_exact := @parseAllPAIValues_shift_exact
+
+/-- … from a new object -/
+theorem shift_pais_new : type_of% @parseAllPAIValues_shift_new := @parseAllPAIValues_shift_new
+
+/-- … resumed after MoreBytes on a grown buffer -/
+theorem shift_pais_resume : type_of% @parseAllPAIValues_shift_resume := @parseAllPAIValues_shift_resume
+
+/-- `GetPAI(j)` of the moved list is the moved `GetPAI(j)` -/
+theorem shift_pais_get : type_of% @shPa_getPAI := @shPa_getPAI
 
 end Sipsp.C11
